@@ -151,9 +151,12 @@ CHECKS['C07'] = dict(
          'to_string(v)) == v. Integration: every 1-subset (thorough: 2-subsets inside four groups) of options at '
          'non-default legal values x templates/modes; the init and media URLs of every media type in the served MPD '
          'are parsed with the server option parser and compared with what the manifest request resolved '
-         '(three black-box forwarding rules), and fetched.',
+         '(three black-box forwarding rules), and fetched. Which media types an option applies to comes from an own table, '
+         'not the registered usage mask; 13 template x mode combinations; two sets of defaults saved with the stream '
+         '(scalar and list-valued) overridden by their default/empty/other value; legacy manifest URLs (the redirect '
+         'carries the request options); time-of-day error positions judged behaviourally.',
     note='"Accepted" = after the template restrictions/features are applied exactly as calculate_options() does; '
-         'time-of-day error positions are translated by design and are not compared.')
+         'time-of-day error positions are translated by design: their meaning is judged by what the media requests do.')
 
 CHECKS['C09'] = dict(
     engine='explorer',
@@ -179,7 +182,10 @@ CHECKS['C11'] = dict(
          'version x header version parse back (own PRO reader + lxml) to the same KID(s), LA_URL and AES-ECB checksum '
          '(own AES-128); POST /clearkey for every id list of length <= 3 over {known1, known2, unknown, duplicate, '
          'malformed, wrong length}; ContentProtection elements of 8 template/mode pairs x DRM selections match the '
-         'selection, default_KID equals the stored tenc KID and embedded pssh/pro equal what the init segment carries.',
+         'selection, default_KID equals the stored tenc KID and embedded pssh/pro equal what the init segment carries '
+         '(also for a track with two key ids and an audio track under its own key; PlayReady versions 1.0-4.0 incl. scheme '
+         'id). Histories of length <= 3 over eight key-management operations with the licence endpoint asked before and '
+         'after each step.',
     note='Oracles: hashlib, uuid, mc/aes128.py (FIPS-197 self-tested), lxml, mc/bmff.py.')
 
 CHECKS['C12'] = dict(
@@ -192,7 +198,8 @@ CHECKS['C12'] = dict(
          '3-6 clocks incl. loop wraps; Periods must be contiguous, sum to mediaPresentationDuration / cover the '
          'time-shift window with unique ids; every number a Period admits is fetched: payload == stored segment '
          '(nearest start to the source offset + k), decode times from 0 and gapless, sequence == number; past the '
-         'end of the source and foreign Period keys are refused.',
+         'end of the source and foreign Period keys are refused. Definitions include a text track, sources numbered from 7, '
+         'DRM with clear-only tracks, and the seven single-period templates on the multi-period route.',
     note='Definitions are inserted with World.add_mps (model layer), the management API is exercised by C17.')
 
 CHECKS['C14'] = dict(
@@ -206,7 +213,9 @@ CHECKS['C14'] = dict(
          'rational instant lies in [tfdt, tfdt+duration), resolve to that instant, no id twice in a run; out-of-band '
          'EventStreams list the same schedule; every SCTE-35 payload (emsg or scte35:Binary) decodes with a valid '
          'CRC-32 to event id, PTS (mod 2^33) and break duration; BinarySignal parse(encode(x)) over 43 200 boundary '
-         'combinations + cancel/time_signal/null commands.',
+         'combinations + cancel/time_signal/null commands + every segmentation type id x 4 field variants + component mode. '
+         'Both templates that carry events, base=0, mixed in-band/out-of-band types, 600-event schedules, duration 0 and '
+         'program ids; a 5xx inside a run is a violation.',
     note='mc/scte35.py validated against the sample section of the SCTE-35 specification; live runs use $Time$ '
          'addressing so that every listed entry is a distinct stored segment.')
 
@@ -245,8 +254,11 @@ CHECKS['C16'] = dict(
          '$Number$: every response must be the prescribed one (or lie in the allowed set); the manifest variant also '
          'issues requests without update= (always a miss). (4) errors addressed by a time of day: every second of a 40 s '
          'window x {number, time addressing} x {bbb, tears}: the synthetic error must be produced for exactly the listed '
-         'segment whose interval contains that time. (5) the management alphabet of C17 (49 operations), every ordered '
-         'pair, issued by the media user: the answer of the request itself must not be a 5xx.',
+         'segment whose interval contains that time. (5) the management alphabet of C17 (55 operations), every ordered '
+         'pair, issued by the media user: the answer of the request itself must not be a 5xx. (6) a census of every stored '
+         'media file of every stream requested the ordinary way; every integer path parameter at 2^15..2^64 with both '
+         'neighbours; request headers x options on the manifest routes; two error specifications in sequence in one session; '
+         'time-of-day errors later than the manifest; streams whose video can not be indexed and multi-period streams over them.',
     note='Crash signature = exception type + innermost repository frame; requested synthetic errors are excluded '
          'from (1) and judged by (3); /media/inspect POST is an async view this sandbox cannot run (asgiref missing), '
          'its synchronous part is driven inside a request context.')
@@ -291,7 +303,8 @@ CHECKS['C17'] = dict(
          'resolvable by the service\'s own lookup, deletions compared with the '
          'ownership closure computed from the pre-state; in every new state every listed stream (4 manifests, '
          'init + first media segment of up to 3 representations, byte-exact read-back of uploaded files) and '
-         'multi-period stream (vod/live manifest, first init segments) must answer 200 or 4xx.',
+         'multi-period stream (vod/live manifest, first init segments) must answer 200 or 4xx. The read-back is compared with '
+         'the blob file that is there now.',
     note='Service checks are memoised on everything the service reads for that stream (sound at a fixed clock). A '
          'sampled differential restart (replay of the history from the initial store must reach the same store) '
          'guards the snapshot mechanism. The status of the management request itself is judged by C16.')
@@ -314,7 +327,9 @@ CHECKS['C18'] = dict(
          'representation), trun data_offset beyond mdat, saio offset + 4, moov / mvex / trex / tkhd removed (sizes '
          'repaired), MPD minBufferTime / profiles / availabilityStartTime / publishTime removed (the last two for '
          'dynamic), availabilityStartTime + 1 h on a refresh, one SegmentTimeline entry dropped: >= 1 error, located '
-         'inside the owning AdaptationSet or on the MPD start tag.',
+         'inside the owning AdaptationSet or on the MPD start tag. The accept side also validates every synthetic stream '
+         '(irregular durations, fragments numbered from 0 or 7, default durations, track ids 3/5, IV sizes 8/16 in either '
+         'order, two key ids); base sessions include on-demand, multi-period, patch and event sessions.',
     note='Synthetic streams are not used here: their codec-level metadata (frame rate, SPS) does not match their '
          'timing, which the validator rightly reports. Request order inside a session is not fixed (the validator keys '
          'elements by id()), so positions are (URL, occurrence) and the located URL is the one actually rewritten. '
